@@ -56,6 +56,7 @@ type hashGen struct {
 	p    pkgT
 	defs []string          // emitted sub-record field/encoder definitions, in dependency order
 	seen map[string]string // name -> body, to check that repeated groups agree
+	notes []string         // optional fields of the source unknown to the model (hashed as absent)
 }
 
 // define emits `def <name>Fields (v : <typ>) := ..` and `def enc<Name>Fields := ..` once.
@@ -74,6 +75,14 @@ func (g *hashGen) define(name, typ string, inner []hashItem) error {
 	g.seen[name] = body
 	g.defs = append(g.defs, fmt.Sprintf("def %sFields (v : %s) :=\n  %s\ndef enc%sFields :=\n  %s\n", name, typ, f, strings.Title(name), e))
 	return nil
+}
+
+// absent: an optional field or optional group of the source that the model's records do not have (a later addition
+// to the library). The harness cannot set it, so every value it hashes has it nil: the model writes what the source
+// writes for nil - the presence marker alone. The field is listed in `unmodelledOptionalFields`.
+func (g *hashGen) absent(what string) hashItem {
+	g.notes = append(g.notes, what)
+	return hashItem{"(none : Option Unit)", "(encOpt encUnit)"}
 }
 
 func (g *hashGen) fieldName(e ast.Expr) (string, error) {
@@ -133,7 +142,9 @@ func (g *hashGen) items(stmts []ast.Stmt) ([]hashItem, error) {
 			if call, ok := isHCall(g.c, es.X, "stringPtr"); ok {
 				f, err := g.fieldName(call.Args[0])
 				if err != nil {
-					return nil, err
+					out = append(out, g.absent(exprString(g.c, call.Args[0])))
+					i++
+					continue
 				}
 				out = append(out, hashItem{f, "(encOpt encStr)"})
 				i++
@@ -142,7 +153,9 @@ func (g *hashGen) items(stmts []ast.Stmt) ([]hashItem, error) {
 			if call, ok := isHCall(g.c, es.X, "timePtr"); ok {
 				f, err := g.fieldName(call.Args[0])
 				if err != nil {
-					return nil, err
+					out = append(out, g.absent(exprString(g.c, call.Args[0])))
+					i++
+					continue
 				}
 				out = append(out, hashItem{f, "(encOpt (encFixed 8))"})
 				i++
@@ -151,7 +164,9 @@ func (g *hashGen) items(stmts []ast.Stmt) ([]hashItem, error) {
 			if call, ok := isHCall(g.c, es.X, "hashNumberPtr"); ok && len(call.Args) == 2 {
 				f, err := g.fieldName(call.Args[1])
 				if err != nil {
-					return nil, err
+					out = append(out, g.absent(exprString(g.c, call.Args[1])))
+					i++
+					continue
 				}
 				w, err := basicWidth(g.p.TypesInfo.TypeOf(call.Args[1]))
 				if err != nil {
@@ -297,7 +312,7 @@ func (g *hashGen) group(x string, inner []hashItem) (hashItem, error) {
 		"v.Trip":     {"trip", "", ""},
 	}[x]
 	if !ok {
-		return hashItem{}, fmt.Errorf("hash: unknown optional group %s", x)
+		return g.absent(x), nil
 	}
 	if info.def == "" {
 		if len(inner) != 1 || inner[0].field != "SELF" {
@@ -402,6 +417,8 @@ func genHashSchema(c *ctx) (string, error) {
 	sb.WriteString("/-- the fields `hasher.vehicle` writes, in order -/\n")
 	fmt.Fprintf(&sb, "def vehicleFields (x : VehicleData) :=\n  %s\n\n", vf)
 	fmt.Fprintf(&sb, "def encVehicleFields :=\n  %s\n\n", ve)
-	sb.WriteString("def encVehicle (x : VehicleData) : List UInt8 := encVehicleFields (vehicleFields x)\n\nend Gtfs.Gen.HashSchema\n")
+	sb.WriteString("def encVehicle (x : VehicleData) : List UInt8 := encVehicleFields (vehicleFields x)\n\n")
+	sb.WriteString("/-- optional fields and groups the source hashes that the model's records do not have (hashed as absent) -/\n")
+	fmt.Fprintf(&sb, "def unmodelledOptionalFields : List String := %s\n\nend Gtfs.Gen.HashSchema\n", leanStrListNL(dedupStrings(g.notes)))
 	return sb.String(), nil
 }
